@@ -39,6 +39,19 @@ def catalogue():
                              embedding_net=nn.Linear(4, 5)), [3], 4, True))
     out.append(("MaskedAutoregressiveFlow", lambda: MaskedAutoregressiveFlow(3, 8, 2, 1), [3], None, False))
     out.append(("SimpleRealNVP", lambda: SimpleRealNVP(4, 8, 2, 1), [4], None, False))
+    # flows whose transform changes the event shape (image flows): samples come in the DATA event shape, not the noise's
+    from nflows.transforms.reshape import SqueezeTransform
+    from nflows.transforms.base import MultiscaleCompositeTransform, CompositeTransform
+    out.append(("Flow(Squeeze,StandardNormal[8,2,2])", lambda: Flow(SqueezeTransform(2), normal.StandardNormal([8, 2, 2])), [2, 4, 4], 3, False))
+    out.append(("Flow(Squeeze o Squeeze,StandardNormal[16,1,2])",
+                lambda: Flow(CompositeTransform([SqueezeTransform(2), SqueezeTransform(2)]), normal.StandardNormal([16, 1, 2])), [1, 4, 8], 3, False))
+
+    def multiscale_flow():
+        m = MultiscaleCompositeTransform(2, split_dim=1)
+        sh = m.add_transform(SqueezeTransform(2), (8, 1, 2))      # the shape AFTER the transform
+        m.add_transform(PointwiseAffineTransform(0.5, 1.5), sh)
+        return Flow(m, normal.StandardNormal([16]))
+    out.append(("Flow(Multiscale,StandardNormal[16])", multiscale_flow, [2, 2, 4], 3, False))
     return out
 
 
